@@ -36,6 +36,7 @@ def FactsOK : Bool :=
      "M[T] = true",
      "for _, v01 := range T.DeclaredDependencies() { addTarget(GRAPH, M, GRAPH.Target(v01)) }",
      "for _, v01 := range T.Dependencies() { addTarget(GRAPH, M, v01) }",
+     "if T.Label.HasParent() { addTarget(GRAPH, M, GRAPH.Target(T.Label.Parent())) }",
      "if T.Subrepo != nil && T.Subrepo.Target != nil { addTarget(GRAPH, M, T.Subrepo.Target) }"] &&
   PlzVerif.Generated.C25.publicDependencies ==
     ["v01 := []*core.BuildTarget{}",
@@ -130,6 +131,24 @@ theorem C25_fuel_conservative (G : Graph) (hwf : GWF G) (Q : Query) (hc : Q.incl
   simp only [keepSet_fuel_conservative G hwf Q hc hs ha, Bool.false_eq_true, ite_false]
   exact ⟨_, _, rfl⟩
 
+/-- Partial (since the repair of `gc-rule-of-needed-subtarget-removed`): the rule of a hidden sub-target that an initial
+root depends on is not proposed for removal either (removing the rule would remove the sub-target with it). -/
+theorem C25_subtargets_partial (G : Graph) (Q : Query) (ts fs : List Nat) (h : targetsToRemove G Q = some (ts, fs)) :
+    ∀ r c, Root0 G Q r → Reach G r c → G.hasParent c = true → G.pl c ∉ ts := by
+  unfold targetsToRemove at h
+  simp only at h
+  split at h
+  · cases h
+  · rename_i ho
+    simp only [Option.some.injEq, Prod.mk.injEq] at h
+    obtain ⟨rfl, _⟩ := h
+    intro r c hr p hp hin
+    have ho' : (keepSet G Q).oof = false := by simpa using ho
+    have hk := keepSet_reach G Q ho' r c hr p
+    unfold removeTargets at hin
+    obtain ⟨hn, hrm⟩ := List.mem_filter.mp hin
+    exact removable_not_kept hrm ((keepSet_spec G Q ho').1 c hk _ (Or.inr ⟨hp, rfl, hn⟩))
+
 /-- Partial: no file that a target below an initial root uses — as a source or (since the repair of
 `gc-data-file-not-kept`) as data — is proposed for deletion. -/
 theorem C25_srcs_partial (G : Graph) (Q : Query) (ts fs : List Nat) (h : targetsToRemove G Q = some (ts, fs)) :
@@ -180,16 +199,13 @@ theorem C25_not_safe_targets : ¬ SafeTargets := by
   obtain ⟨ts, fs, he, hm, hn⟩ := C25_witness_test_order
   exact h gT Q0 ts fs he 3 hm hn
 
-/-- witness 3 (known finding `gc-rule-of-needed-subtarget-removed`): `bin` uses `_gen#out` directly; the rule `gen`
-itself is needed by nobody and is proposed for removal — and `_gen#out` disappears with it. -/
+/-- the shape of the repaired finding `gc-rule-of-needed-subtarget-removed` (fixed): `bin` uses `_gen#out` directly; the
+rule `gen` stays with its sub-target. -/
 def gH : Graph := { nodes := [2, 0, 1], decl := fun | 0 => [2] | 1 => [2] | _ => [], res := fun | 0 => [2] | 1 => [2] | _ => [],
                      isBinary := fun | 0 => true | _ => false, isTest := noB, testOnly := noB, keepLabel := noB,
                      hasParent := fun | 2 => true | _ => false, pl := fun | 2 => 1 | n => n, sibs := noL, srcs := noL, data := noL }
 
-theorem C25_witness_subtarget_rule : ¬ SafeSubtargets := by
-  intro h
-  exact h gH Q0 [1] [] (by decide) 2 (.dep (a := 0) (.root (Or.inl ⟨by decide, by decide⟩)) (Or.inl (by decide))) rfl
-    (by decide)
+example : targetsToRemove gH Q0 = some ([], []) := by decide
 
 /-- the shape of the repaired finding `gc-data-file-not-kept` (fixed): `shared.txt` (file 2) is a data file of the binary
 `bin` and a source of the unused `old`; only `old.go` (file 1) goes. -/
